@@ -1,4 +1,4 @@
 From Coq Require Import Extraction ExtrOcamlBasic.
-From TK Require Import Spe_Model Spe_Spec Spe_Exec.
+From TK Require Import Spe_Model Spe_Spec Spe_Exec Spe_Fa_Exec.
 Extraction "c19_model.ml" spe_indices spe_log_check clamp_loop draw draw_old is_perm_b
-  rp_embed_qc spe_step_qc qc_of qc_num qc_den.
+  rp_embed_qc spe_step_qc qc_of qc_num qc_den fa_embed_qc qc_inverse_opt inv_contract_b.
